@@ -70,7 +70,13 @@ def known_match(prop, key):
     return None
 
 
+DEBUG_RUN = False   # set by vf.main for --only / --to / --no-replay runs: their evidence goes to .build/debug-evidence, never to /verif/evidence
+
+
 def write_evidence(prop, tier, cov, assumptions, wall, violations, level="model_checking"):
+    global EVIDENCE
+    if DEBUG_RUN:
+        EVIDENCE = os.path.join(BUILD, "debug-evidence")
     os.makedirs(EVIDENCE, exist_ok=True)
     ev = {
         "property_id": prop,
